@@ -1,7 +1,7 @@
 #!/bin/bash
 # usage: tools/sweep.sh "1 2 3" [quick|thorough] [checks...]   - runs checks under several VERIF_SEED values, prints verdict lines
 seeds="$1"; tier="${2:-quick}"; shift; shift
-checks="${@:-C01 C02 C03 C04 C05 C06 C07 C08 C11 C12 C13 C14 C15 C16 C17 C18 C19 C20}"
+checks="${@:-C01 C02 C03 C04 C05 C06 C07 C08 C09 C10 C11 C12 C13 C14 C15 C16 C17 C18 C19 C20}"
 for s in $seeds; do for c in $checks; do
   out=$(VERIF_SEED=$s ./check $c --tier $tier --no-evidence 2>&1); rc=$?
   echo "seed=$s $c rc=$rc $(echo "$out" | grep -E '^# C[0-9]+ tier' | cut -c1-160)"
